@@ -13,7 +13,7 @@ From RU Require Import Base.Prelude Base.Utf8 Model.HostT Model.UrlRecord Model.
   Proofs.C06_Main Proofs.C02_Reach Proofs.C02_AuthParts Proofs.C02_AuthMain Proofs.C04_ParseTotal
   Proofs.C03_ReachParts Proofs.C03_Reach Proofs.C03_ReachFile Proofs.C03_ReachHost Proofs.C03_ReachHist
   Model.FilePath Proofs.C06_Path Proofs.C06_Host Proofs.C05_Enc Proofs.C03_ReachAll Proofs.C03_Reachability
-  Proofs.C03_ReachAscii Proofs.C03_ReachEx Proofs.C03_Views Proofs.C03_PortInv.
+  Proofs.C03_ReachAscii Proofs.C03_ReachEx Proofs.C03_Views Proofs.C03_PortInv Proofs.C03_PortParse.
 Open Scope string_scope.
 Open Scope N_scope.
 Open Scope list_scope.
@@ -423,6 +423,26 @@ Proof.
   - right. rewrite Hs in Hp. cbn in Hp. inversion Hp. split; reflexivity.
 Qed.
 Print Assumptions C03_port_never_default_partial.
+
+(* without a hypothesis on the parser: reach03n dbg hp hpo hd (Proofs/C03_PortParse.v) = the part of reach03a whose
+   histories start at Url::parse (no base) of a text with a scheme other than "file" (C02's four closed-form
+   classes; the input is a &str) or at a file-path constructor, followed by any sequence of mutator calls
+   outside known03.  Hypotheses HostRT and host_above of C02 (they imply HostWf).  Not covered: joins, file:
+   texts - for these ParsePN above is the missing piece. *)
+Theorem C03_port_never_default_nonfile : forall dbg hp hpo hd, HostRT hp hpo hd -> host_above hp hpo hd -> IpDisp hd ->
+  forall u, reach03n dbg hp hpo hd u -> reach03a dbg hp hpo hd u /\ PN u.
+Proof.
+  intros dbg hp hpo hd HRT HAb HIP u R.
+  split; [exact (reach03n_sub dbg hp hpo hd u R) | exact (reach03n_pn dbg hp hpo hd HRT HAb HIP u R)].
+Qed.
+Check C03_port_never_default_nonfile : forall dbg hp hpo hd, HostRT hp hpo hd -> host_above hp hpo hd -> IpDisp hd ->
+  forall u, reach03n dbg hp hpo hd u -> reach03a dbg hp hpo hd u /\ PN u.
+Print Assumptions C03_port_never_default_nonfile.
+
+Example C03_port_never_default_nonfile_inhabited :
+  (HostRT ex_hp ex_hp ex_hd2 /\ host_above ex_hp ex_hp ex_hd2) /\ IpDisp ex_hd2
+  /\ nonfile_input (B "http://h:81/") = true.
+Proof. split; [exact ex2_host_RT|]. split; [exact ex2_ip_disp | vm_compute; reflexivity]. Qed.
 
 (* non-vacuity: "http://h:81/" parsed with the example host functions satisfies PN; set_port(Some 80) on it is a
    step outside the exclusion and clears the port *)
